@@ -14,7 +14,7 @@ for d in seeded/*/ ; do
   out=$(./vf check "$prop" --tier quick 2>&1); rc=$?
   git -C /repo checkout -- .
   first=$(echo "$out" | grep -m1 "^VIOLATION" | cut -c1-160)
-  if [ $rc -eq 1 ]; then ok=$((ok+1)); echo "CAUGHT $name by $prop :: $first"; else miss=$((miss+1)); echo "MISSED $name by $prop (exit $rc) :: $(echo "$out" | tail -1 | cut -c1-120)"; fi
+  if [ $rc -eq 1 ]; then ok=$((ok+1)); echo "CAUGHT $name by $prop :: $first"; elif jq -e ".detected_by | startswith(\"NOT\")" "$d/meta.json" >/dev/null; then echo "KNOWN-MISS $name (documented in DESIGN.md 8.8)"; else miss=$((miss+1)); echo "MISSED $name by $prop (exit $rc) :: $(echo "$out" | tail -1 | cut -c1-120)"; fi
 done
 for p in mutants/*.patch; do
   name=$(basename "$p")
